@@ -37,7 +37,9 @@ def expected(td, va, vb, key, partial):
     """-1/0/1, or None (incomparable)"""
     (ia, fa), (ib, fb) = va, vb
     if ia != ib:
-        return (ia > ib) - (ia < ib)
+        dv = td.notes.get("dvals")
+        da, db = (dv[ia], dv[ib]) if dv else (ia, ib)
+        return (da > db) - (da < db)
     garg = td.notes["garg"]
     v = td.variants[ia]
     for f in M.compared_fields(td, v, key):
